@@ -110,6 +110,12 @@ pub fn examine_program(text: &str, origin: &str, seed: u64, report: &mut Report)
             }
         };
         let out_functions = diffexec::callable_functions(&out_ir);
+        // oracle (ii): the emitted text under C-like HLSL semantics, independent of rssl's type checker
+        let out_tree = match rs::parse_text(&emitted) {
+            Front::Ok(t) => Some(t),
+            _ => None,
+        };
+        let no_globals = std::collections::BTreeMap::new();
         for (fi, (name, id)) in functions.iter().enumerate() {
             let Some((_, out_id)) = out_functions.iter().find(|(n, _)| n == name) else {
                 report.count("skipped:function-not-found-by-name");
@@ -169,6 +175,28 @@ pub fn examine_program(text: &str, origin: &str, seed: u64, report: &mut Report)
                 if let Some(d) = truth.diff(&got) {
                     let w = witness(seed, text, origin, flavour, name, &args, &emitted, &truth.describe(), &got.describe());
                     report.violation("meaning-changed", &format!("function {} computes a different result after export to {}: {}", name, flavour.name(), d), w);
+                }
+                if let Some(tree) = &out_tree {
+                    match diffexec::run_tree(tree, crate::oracle::cexec::Dialect::Hlsl, name, &args, &no_globals) {
+                        Ok(got2) => {
+                            report.count("compared:c-like-hlsl-semantics");
+                            if let Some(d) = truth.diff(&got2) {
+                                let w = witness(seed, text, origin, flavour, name, &args, &emitted, &truth.describe(), &got2.describe());
+                                report.violation(
+                                    "meaning-changed:c-like-semantics",
+                                    &format!("function {} computes a different result when the emitted {} is evaluated with C-like HLSL semantics: {}", name, flavour.name(), d),
+                                    w,
+                                );
+                            }
+                        }
+                        Err(t) => {
+                            let class = diffexec::trap_class(&t);
+                            report.count(&format!("oracle-ii-skipped:{}", class));
+                            if std::env::var("VERIF_DEBUG").is_ok() {
+                                eprintln!("=== oracle ii gave up on {} ({}): {:?}", name, origin, t);
+                            }
+                        }
+                    }
                 }
             }
         }
